@@ -194,10 +194,26 @@ class ScriptEmptyTimeoutExc(TimeoutError):
         return 0
 
 
-EXC_FAMILIES = ("plain", "runtime", "os", "frozen", "empty", "group", "type", "timeout", "poolcancel", "badstr", "emptytimeout")
+EXC_FAMILIES = ("plain", "runtime", "os", "frozen", "empty", "group", "type", "timeout", "poolcancel", "badstr", "emptytimeout", "status")
+_STATUS_OF = {"TRANSIENT": 408, "SERVER_ERROR": 503, "RATE_LIMIT": 429, "CONCURRENCY": 409, "PERMANENT": 404, "AUTH": 401, "PERMISSION": 403}
+
+
+class ScriptStatusExc(Exception):
+    """One application error type for every failure, told apart by its HTTP status (the usual `ApiError(status)`): what
+    default_classifier - the classifier of a policy without a retry component - goes by."""
+
+    def __init__(self, klass: str, idx: int, ra=None):
+        super().__init__(f"{klass}@{idx}")
+        self.rv_klass = klass
+        self.idx = idx
+        self.retry_after = ra
+        if klass in _STATUS_OF:
+            self.status = _STATUS_OF[klass]
 
 
 def mk_script_exc(family, klass, idx, ra=None):
+    if family == "status":
+        return ScriptStatusExc(klass, idx, ra)
     if family == "runtime":
         return ScriptRuntimeExc(klass, idx, ra)
     if family == "os":
@@ -814,7 +830,17 @@ class Harness:
             return None
         if kind == "sp":
             name = o[1]
-            if name == "abort":
+            if name == "abort" and self.sc.get("abort_origin") == "nested":
+                # the abort comes up through a nested policy of the operation's own (its abort predicate said stop): the object the inner
+                # machinery raised, with whatever that machinery put on it
+                x = None
+                try:
+                    redress.Retry(classifier=lambda e_: EC["TRANSIENT"], strategy=lambda c_: 0.0).call(lambda: None, abort_if=lambda: True)
+                except AbortRetryError as ax:
+                    x = ax
+                if x is None:
+                    x = AbortRetryError()
+            elif name == "abort":
                 # the documented public alias on odd attempts, the class itself on even ones
                 x = (redress.AbortRetry if i % 2 else AbortRetryError)()
             elif name == "nested_exh":
@@ -1298,7 +1324,22 @@ class Harness:
 
     def _deco_build(self, ckw, fn):
         kw = dict(self.retry_kw)
-        wrapped = retry_decorator(**kw, **ckw)(fn)
+        shared = retry_decorator(**kw, **ckw)
+        wrapped = shared(fn)
+        if self.sc.get("ctx_decoy"):
+            # one decorator object for several functions (`resilient = retry(...)`, then `@resilient` on each): the other function
+            # keeps its own name, and this one keeps its own
+            if self.is_async:
+
+                async def fetch_invoice():
+                    return None
+
+            else:
+
+                def fetch_invoice():
+                    return None
+
+            self.decoy_shared = shared(fetch_invoice)
         if self.sc.get("ctx_decoy"):
             # the SAME function is wrapped a second time with other settings (a patient variant next to the fast one); both wrappers
             # stay alive, the first one is the one that gets called
